@@ -172,3 +172,44 @@ func H_C18_scalar() {
 	}
 	verif.Reach("end")
 }
+
+// H_C18_objects: DEFAULTKEY and FUSE.
+func H_C18_objects() {
+	fn := verif.Choose("fn", 2)
+	x := verif.F64("x")
+	verif.Assume(x == x)
+	keys := verif.Choose("keys", 3)
+	obj := Map{}
+	if keys >= 1 {
+		obj["p"] = x
+	}
+	if keys >= 2 {
+		obj["q"] = "s"
+	}
+	doc := Map{"t": []any{Map{"o": obj, "nul": nil, "x": x}}}
+	switch fn {
+	case 0:
+		m, err := oneRow(doc, "SELECT DEFAULTKEY(o) AS v, DEFAULTKEY(nul) AS n FROM t")
+		if keys == 1 {
+			verif.Assert(err == nil, "single-key-ok")
+			if err == nil {
+				verif.Assert(verif.Eq(m["v"], x) && m["n"] == nil, "defaultkey")
+			}
+		} else {
+			verif.Assert(err != nil, "zero-or-many-keys-is-error")
+		}
+	case 1:
+		m, err := oneRow(doc, "SELECT x, FUSE(o) FROM t")
+		verif.Assert(err == nil, "no-error")
+		if err == nil {
+			want := Map{"x": x}
+			for k, v := range obj {
+				want[k] = v
+			}
+			verif.Assert(verif.Eq(m, want), "fuse")
+		}
+		_, err = oneRow(doc, "SELECT FUSE(x) FROM t")
+		verif.Assert(err != nil, "fuse-non-object-is-error")
+	}
+	verif.Reach("end")
+}
